@@ -100,6 +100,17 @@ def gen_identity_unrecognised(seed, big):
             src = lead + pre + open_tag + body + close + tail
             out.append((dict(cfg(), mode='clean', source=src, ds=ds, de=de),
                         (lambda s_: lambda r: None if r.get('ok') and r.get('output') == s_ else 'a tag the tokenizer does not recognise was treated as an element (output differs from input): ' + json.dumps(r, ensure_ascii=False)[:200])(src)))
+    # the file ends inside the end delimiter of the closing tag: the closing tag does not exist, nothing is ready
+    for ds, de in DELIMS + [('<!--', '-->'), ('// --', '-- //')]:
+        if len(de) < 2:
+            continue
+        for k in range(1, len(de)):
+            for open_tag, close in ((f"{ds}{TL} to='{PAST}'{de}", f"{ds}/{TL}{de}"), (f"{ds}{RM} name='f1'{de}", f"{ds}/{RM}{de}"),
+                                    (f"{ds} {TL} to='{PAST}' {de}", f"{ds} /{TL} {de}"), (f"{ds} {RM} name='f1' {de}", f"{ds} /{RM} {de}")):
+                for lead in ('keep();\n', ''):
+                    src = lead + open_tag + '\nold();\n' + close[:-k]
+                    out.append((dict(cfg(), mode='clean', source=src, ds=ds, de=de),
+                                (lambda s_: lambda r: None if r.get('ok') and r.get('output') == s_ else 'a closing tag cut off at the end of the file was treated as a closing tag (output differs from input): ' + json.dumps(r, ensure_ascii=False)[:200])(src)))
     return out
 
 
@@ -236,6 +247,12 @@ def gen_expiry(seed, big):
     for attrs in ('', 'to', 'from="x"'):
         src = f"A\n<{TL} {attrs}>\nB\n</{TL}>\nC\n"
         out.append((dict(cfg(), mode='clean', source=src, ds='<', de='>'), (lambda s: lambda r: None if r.get('ok') and r.get('output') == s else 'missing/valueless `to` made the element ready')(src)))
+    # the FIRST attribute named `to` decides (a later duplicate is ignored), also when the tag is spread over several lines
+    for attrs, ready in ((f"to to='{PAST}'", False), (f"to=2000-01-01 to='{PAST}'", False), (f"to='{FUTURE}' to='{PAST}'", False),
+                         (f"to='{PAST}' to='{FUTURE}'", True), (f"to=''\n  to='{PAST}'", False), (f"to\n  to='{PAST}'", False), (f"x='to' to='{PAST}'", True)):
+        src = f"A\n<{TL} {attrs}>\nB\n</{TL}>\nC\n"
+        exp = 'A\nC\n' if ready else src
+        out.append((dict(cfg(), mode='clean', source=src, ds='<', de='>'), (lambda e, a: lambda r: None if r.get('ok') and r.get('output') == e else f'duplicate `to` attributes [{a}]: the first one must decide: ' + json.dumps(r, ensure_ascii=False)[:160])(exp, attrs)))
     return out
 
 
@@ -255,6 +272,9 @@ def gen_marker(seed, big):
         ("name=\"f1\" note=\"don't skip this one\"", ['f1'], True), ("name='f1' note='say \"skip\" twice'", ['f1'], True),
         ("name=\"it's\"", ["it's"], True), ("name=\"it's\"", ['it'], False), ("name='a\"b'", ['a"b'], True), ("name='a\"b'", ['a'], False),
         ("name='C:\\'", ['C:\\'], True), ("name='f1\\' other='x'", ['f1\\'], True),
+        # the FIRST attribute called `name` decides
+        ("name name='f1'", ['f1'], False), ("name=f2 name='f1'", ['f1'], False), ("name='zz' name='f1'", ['f1'], False), ("name='f1' name='zz'", ['f1'], True),
+        ("name=''\n  name='f1'", ['f1'], False), ("name\n name=\"f1\"", ['f1', ''], False),
     ]
     for attrs, targets, ready in cases:
         src = doc(attrs)
@@ -439,15 +459,27 @@ def gen_inline(seed, big):
             parts.append(el)
             if not ready:
                 keep.append(el)
+            # further ready elements directly behind this one (no byte between them)
+            for _k in range(rnd.choice([0, 0, 0, 1, 1, 2])):
+                tag2, attrs2 = rnd.choice([(TL, f"to='{PAST}'"), (RM, "name='f1'")])
+                parts.append(f"{ds}{tag2} {attrs2}{de}{rnd.choice(words)}{ds}/{tag2}{de}")
             post = rnd.choice(blanks) + rnd.choice(words)
             parts.append(post); keep.append(post)
             parts.append('\n'); keep.append('\n')
-        if rnd.random() < 0.25:
+        has_unwrap = rnd.random() < 0.3
+        if has_unwrap:
+            # a ready unwrap-block behind everything else: its two tag lines and two wrapper lines go, the body stays
+            bodyl = [rnd.choice(['s1', 'これ', 'x = "é";']) for _ in range(rnd.randint(1, 3))]
+            ub = [f"{ds}{TL} to='{PAST}' unwrap-block{de}", '{'] + ['  ' + b_ for b_ in bodyl] + ['}', f"{ds}/{TL}{de}"]
+            parts.append('\n'.join(ub) + '\n'); keep.append(''.join(bodyl))
+            tailw = rnd.choice(['', 'c\n'])
+            parts.append(tailw); keep.append(tailw)
+        elif rnd.random() < 0.25:
             # the document begins with a tag (drop the leading text) and / or ends with one (drop everything behind the last element)
             while parts and not parts[0].startswith(ds):
                 if parts[0] in keep: keep.remove(parts[0])
                 parts.pop(0)
-        if rnd.random() < 0.25:
+        if not has_unwrap and rnd.random() < 0.25:
             while parts and not parts[-1].endswith(de):
                 x = parts.pop()
                 for i in range(len(keep) - 1, -1, -1):
@@ -857,6 +889,29 @@ def gen_pairing(seed, big):
     return out
 
 
+def gen_totality_everywhere(seed, big):
+    """C01: every input any other generator produces, in clean / list / list_all (pretty and JSON) mode: the call must
+    return normally (the oracles of the other properties look at the value; this one only at `ok`)"""
+    out = []
+    seen = set()
+    for prop, gens in GENERATORS.items():
+        if prop == 'C01':
+            continue
+        for g in gens:
+            for i, (req, _) in enumerate(g(seed, big)):
+                if req.get('mode') not in ('clean', 'list', 'list_json', 'list_all', 'list_all_json') or (not big and i % 4):
+                    continue
+                key = (req['source'], req.get('ds'), req.get('de'))
+                if key in seen:
+                    continue
+                seen.add(key)
+                for mode in ('clean', 'list_json', 'list_all'):
+                    r2 = {k: v for k, v in req.items() if not k.startswith('_')}
+                    r2['mode'] = mode
+                    out.append((r2, (lambda m: lambda r: None if r.get('ok') else f'{m} panicked: ' + str(r.get('panic'))[:200])(mode)))
+    return out
+
+
 # ---- the same documents under other spellings (delimiters, tag names) -------------------------------------------------
 # Every generator above that writes its documents with '<' '>' and the default tag names is ALSO run with the documents
 # and the configuration rewritten consistently to other delimiter pairs / tag names; the real crate's answer is mapped
@@ -903,6 +958,8 @@ GENERATORS = {
     'C09': [gen_grammar], 'C10': [gen_pairing], 'C02': [gen_blocks, gen_inline], 'C03': [gen_blocks, gen_inline], 'C11': [gen_blocks, gen_unwrap_wrappers], 'C17': [gen_list_all],
     'C12': [gen_dedent, gen_dedent_nested, gen_dedent_crlf], 'C13': [gen_blanklines, gen_lines_intact], 'C14': [gen_inline, gen_dedent_nested, gen_unwrap_lines_intact], 'C15': [gen_list_regions],
 }
+
+GENERATORS['C01'] = GENERATORS['C01'] + [gen_totality_everywhere]
 
 
 def run(prop, drive, seed=0, big=False):
